@@ -192,12 +192,16 @@ def generate(rng, tier):
         plain = [f for f in fields if f != "status"]
         if plain:
             table["wtypes"] = {rng.choice(plain): [rng.randint(0, 4), rng.randint(4, 9)] + (["center"] if rng.random() < 0.4 else [])}
+    if recs and not struct and rng.random() < 0.06:
+        # fault: one record is malformed (too short) when the table is printed for the first time; the caller
+        # catches the error, repairs the record in its list and goes on with the same table
+        table["broken_first"] = rng.randrange(len(recs))
     if struct == "nofields":
         for key in ("titles", "wtypes"):
             table.pop(key, None)
     if struct:
         pass
-    elif rng.random() < 0.25 and recs and not odd:
+    elif rng.random() < 0.25 and recs and not odd and "broken_first" not in table:
         table["nt"] = True
     elif rng.random() < 0.2:
         # the names arrive as a tuple, or as members of the caller's (str, Enum) class
@@ -251,6 +255,11 @@ def generate(rng, tier):
                 ",", ",,", " , ", ",;", " , ;;", fields[0] + ",", "," + fields[0]])})
         elif r < 0.97:
             ops.append({"op": "fmt_obj_ctor"})
+            if struct in ("recfields", "recfields_pos") and rng.random() < 0.7:
+                # the application builds another report from its one list of RecordField objects, with titles of
+                # its own: an unrelated table, nothing to do with the ones that exist
+                ops.append({"op": "other_report", "titles": {f: rng.choice(["A much longer, verbose title", "T", "Two\nlines"])
+                                                            for f in rng.sample(fields, rng.randint(1, len(fields)))}})
         else:
             # a sibling table built from this table's format object, showing other records
             ops.append({"op": "sibling", "keep": rng.choice(["half", "odd", "all", "first"]),
@@ -430,9 +439,21 @@ def build_table(w, fmt=None, fmt_obj=None, with_limits=True, ctx=None, initial=F
     limits = spec.get("limits") if (ctx is None or ctx.limits is _SPEC) else ctx.limits
     if with_limits and limits is not None:
         kw["limits"] = tuple(limits) if len(recs) % 2 else list(limits)
+    broken = spec.get("broken_first") if initial and fmt_obj is None else None
+    if broken is not None and broken < len(recs) and len(recs[broken]) > 1:
+        good = recs[broken]
+        recs[broken] = good[:1]
+    else:
+        broken = None
     table = w.PPTable(recs, header=spec.get("header"), footer=spec.get("footer"), **kw)
     if assign is not None:
         table.set_fmt(assign)
+    if broken is not None:
+        try:
+            str(table.ch_text(colors_conf=w.conf))
+        except IndexError:
+            w.stats["fault.record_raised_at_first_print"] = w.stats.get("fault.record_raised_at_first_print", 0) + 1
+        recs[broken] = good         # repaired in the caller's list: the table shows the caller's records
     return table
 
 
@@ -727,6 +748,15 @@ def execute(trace, rng):
                 w.stats["removed"] += 1
                 c.expect = None
                 invalidate_tasks(w, c)
+            elif k == "other_report":
+                if w.spec.get("struct") not in ("recfields", "recfields_pos"):
+                    continue
+                recs2 = _struct_records(w.spec, rw.ro._records(w.spec))
+                other = sut("PPTable(records, fields=<the shared RecordField list>, fields_titles=...)", w.PPTable,
+                            recs2, fields=list(_record_fields(w, w.spec)), fields_titles=dict(op.get("titles") or {}))
+                sut("render(other report)", lambda: str(other.ch_text(colors_conf=w.conf)))
+                w.stats["other_reports"] = w.stats.get("other_reports", 0) + 1
+                continue
             elif k == "fmt_obj_ctor":
                 r0 = sut("render(table)", render, w, t, False)
                 c.printed = True
